@@ -1,6 +1,8 @@
 package ast
 
 import (
+	"strings"
+
 	"github.com/dcaiafa/lox/internal/parsergen/lr1"
 )
 
@@ -21,6 +23,14 @@ func (r *ParserRule) RunPass(ctx *Context, pass Pass) {
 	switch pass {
 	case CreateNames:
 		ctx.HasParserRules = true
+		if strings.Contains(r.Name, "__") {
+			// Action methods are named on_<rule>__<suffix>.
+			ctx.Errs.Errorf(
+				ctx.Position(r),
+				"rule name cannot have more than one consecutive underscore: %v",
+				r.Name)
+			return
+		}
 		if !ctx.RegisterName(r.Name, r) {
 			return
 		}
